@@ -1,8 +1,9 @@
 (* C15 — The raw-data parser never reads outside its buffer.   Statements only; proofs in C15Proofs.v.
 
    Model: PV.Model.RawParser, a line-by-line mirror of raw_io.cc in two variants
-     chk = false  the primitives of the pinned tree (no bounds checks)             = RawParser.read_bes_raw
-     chk = true   the primitives of proposed_fixes/C15_raw_parser_bounds.diff      = RawParserFixed.read_bes_raw_fixed
+     chk = false  the primitives of the originally pinned tree (no bounds checks)             = RawParser.read_bes_raw
+     chk = true   the bounds-checked primitives (proposed_fixes/C15_raw_parser_bounds.diff, committed to /repo as 36d3ba0
+                  "fix: bounds-check the raw-data parser's read/skip primitives and ROD counts") = RawParserFixed.read_bes_raw_fixed
    Which variant mirrors the working tree is established on every run by the native correspondence (working-tree
    raw_io.cc under ASan/UBSan against both variants on the adversarial stream).
 
